@@ -13,7 +13,7 @@
   (checked dynamically by harness/c20.py); totality (dynamic only).
 -/
 import Pymeeus.Lemmas.EffectsTop
-import Pymeeus.Gen.Effects.Current
+import Pymeeus.Gen.Effects.Checks
 
 namespace Pymeeus.C20
 open Pymeeus.Effects
@@ -87,5 +87,107 @@ theorem copy_independent {P : Program} (hck : check P = true) {calls h h'} (hw :
     · refine Or.inr ⟨hm, ?_⟩
       rw [hr]; intro heq; cases heq; omega
   exact ⟨reach_congr hsame, hsame⟩
+
+
+/-! ### The current source -/
+
+/-- The per-run obligation: the effect skeleton regenerated from the current pymeeus source
+(`Current.program`, every function and method of the 19 modules) is accepted by the analysis.
+Evaluated by the kernel, module by module (Gen/Effects/Check_*.lean), against the current source;
+a change of the source that makes a public function write an argument, an object reachable from
+it, or a module-level table breaks this theorem. -/
+theorem check_current : check Current.program = true := by
+  have h := Current.all_checked
+  unfold check
+  rw [Current.sums_eq]
+  exact h
+
+/-- The functions treated as in-place mutators of their receiver are exactly the documented ones
+(the anchors of the property plus `Minor.set`, and the constructors); every other public function is
+held to "writes nothing". -/
+theorem mutators_documented :
+    (Current.program.funs.filter (fun fd => fd.kind == .mutator)).map (·.name) =
+      ["Angle.__init__", "Angle.set_tolerance", "Angle.set", "Angle.set_radians", "Angle.set_ra",
+       "Angle.to_positive", "CurveFitting.__init__", "CurveFitting.set", "Ellipsoid.__init__",
+       "Earth.__init__", "Earth.set", "Epoch.__init__", "Epoch.set", "Interpolation.__init__",
+       "Interpolation.set", "Interpolation.set_tolerance", "Minor.__init__", "Minor.set",
+       "Sun.__init__"] := by
+  decide +kernel
+
+/-- `sound` instantiated at the current source: no public side-effect-free function or method of
+pymeeus changes any object that exists when it is called. -/
+theorem current_pure_calls_change_nothing {g : Nat} {fd : FunDecl} {h h' : Heap} {vals : List Val}
+    {o : Outcome} (hg : Current.program.funs[g]? = some fd) (hpure : fd.kind = .pure)
+    (hw : WFHeap h) (hv : ∀ i, WFVal h.next (vals.getD i .scalar))
+    (hex : Exec Current.program fd.body h (entryEnv fd.nparams vals) h' o) :
+    ∀ id, id < h.next → h'.obj id = h.obj id :=
+  sound check_current hg hpure hw hv hex
+
+/-! ### The analysis discriminates (the hypotheses above are not vacuous)
+
+Variables: 0 = first parameter, …; attribute 0 = `_deg`, attribute 1 = `_x`. -/
+
+/-- `def set(self, deg): deg[0] = degrees(deg[0]); self._deg = …` — the defect fixed by commit 6a9fdb4
+(`Angle([x], radians=True)` overwrote the caller's list element). -/
+def exPreFix : Program := ⟨2, [
+  ⟨"set", 2, 3, blk [.setitem 1 2, .store 0 (.field 0) 2], .mutator, ⟨[0], true, .scal⟩⟩]⟩
+/-- the repaired version: reads `deg[0]` into a local, writes `self` only -/
+def exPostFix : Program := ⟨2, [
+  ⟨"set", 2, 3, blk [.load 2 1 .elem, .scalar 2, .store 0 (.field 0) 2], .mutator, ⟨[0], true, .scal⟩⟩]⟩
+
+example : check exPreFix = false := by decide
+example : check exPostFix = true := by decide
+/-- not even the weaker summary "writes self and the list" passes for a documented mutator -/
+example : check ⟨2, [⟨"set", 2, 3, blk [.setitem 1 2, .store 0 (.field 0) 2], .mutator,
+    ⟨[0, 1], true, .scal⟩⟩]⟩ = false := by decide
+
+/-- the pre-fix program really has an execution that changes the caller's list: the semantics can
+express the defect (heap: object 0 = self, object 1 = the list). -/
+theorem prefix_mutates_argument :
+    ∃ h', Exec exPreFix (blk [.setitem 1 2, .store 0 (.field 0) 2])
+        ⟨2, fun _ _ => .ref 0⟩ (entryEnv 2 [.ref 0, .ref 1]) h' (.norm (entryEnv 2 [.ref 0, .ref 1]))
+      ∧ h'.obj 1 0 ≠ (⟨2, fun _ _ => .ref 0⟩ : Heap).obj 1 0 := by
+  refine ⟨_, Exec.seqN (Exec.store (id := 1) (k := 0) rfl trivial)
+    (Exec.store (id := 0) (k := 0) rfl rfl), ?_⟩
+  simp [Heap.write, entryEnv]
+
+/-- A copy constructor that shares the list (`self._x = other._x`) is accepted on its own … -/
+def exShare : FunDecl :=
+  ⟨"__init__", 2, 3, blk [.load 2 1 (.field 1), .store 0 (.field 1) 2], .mutator, ⟨[0], false, .scal⟩⟩
+/-- … a mutator that rebinds before appending (`self._x = []; self._x.append(v)`) is accepted … -/
+def exRebind : FunDecl :=
+  ⟨"set", 2, 4, blk [.new 2, .store 0 (.field 1) 2, .load 3 0 (.field 1), .append 3 1], .mutator,
+    ⟨[0], false, .scal⟩⟩
+/-- … but one that appends in place (`self._x.append(v)`) is rejected: with the sharing constructor it
+would change the copy's source. -/
+def exInPlace : FunDecl :=
+  ⟨"add", 2, 4, blk [.load 3 0 (.field 1), .append 3 1], .mutator, ⟨[0], false, .scal⟩⟩
+
+example : check ⟨2, [exShare, exRebind]⟩ = true := by decide
+example : check ⟨2, [exShare, exInPlace]⟩ = false := by decide
+/-- a copying constructor (`self._x = list(other._x)`) keeps the new object closed -/
+example : check ⟨2, [⟨"__init__", 2, 5, blk [.load 2 1 (.field 1), .new 3, .load 4 2 .elem,
+    .scalar 4, .store 3 .elem 4, .store 0 (.field 1) 3], .mutator, ⟨[0], true, .scal⟩⟩]⟩ = true := by decide
+
+/-- an operator building a new object from two operands (`__add__`): accepted, result new -/
+example : check ⟨2, [⟨"__init__", 2, 3, blk [.scalar 2, .store 0 (.field 0) 2], .mutator, ⟨[0], true, .scal⟩⟩,
+    ⟨"__add__", 2, 5, blk [.new 2, .call 3 0 [2, 4], .ret 2], .pure, ⟨[], true, .closed⟩⟩]⟩ = true := by decide
+/-- an "operator" that updates its left operand in place: rejected -/
+example : check ⟨2, [⟨"__iadd__", 2, 3, blk [.scalar 2, .store 0 (.field 0) 2, .ret 0], .pure,
+    ⟨[0], true, .param 0⟩⟩]⟩ = false := by decide
+/-- a function that writes into a module-level table: rejected whatever summary is proposed -/
+example : check ⟨2, [⟨"f", 0, 2, blk [.global 0 7, .scalar 1, .setitem 0 1], .pure, ⟨[], true, .scal⟩⟩]⟩
+    = false := by decide
+/-- calling a mutator on a tuple element of a callee's fresh result is fine
+(`lon, lat = g(); lon.to_positive()`), on an element of a parameter it is not -/
+example : check ⟨2, [
+    ⟨"to_positive", 1, 2, blk [.scalar 1, .store 0 (.field 0) 1, .ret 0], .mutator, ⟨[0], true, .param 0⟩⟩,
+    ⟨"g", 0, 3, blk [.new 0, .new 1, .append 0 1, .ret 0], .pure, ⟨[], true, .closed⟩⟩,
+    ⟨"f", 0, 4, blk [.call 0 1 [], .load 1 0 .elem, .call 2 0 [1], .ret 2], .pure, ⟨[], true, .closed⟩⟩]⟩
+    = true := by decide
+example : check ⟨2, [
+    ⟨"to_positive", 1, 2, blk [.scalar 1, .store 0 (.field 0) 1, .ret 0], .mutator, ⟨[0], true, .param 0⟩⟩,
+    ⟨"f", 1, 4, blk [.load 1 0 .elem, .call 2 0 [1], .ret 2], .pure, ⟨[], true, .any⟩⟩]⟩
+    = false := by decide
 
 end Pymeeus.C20
